@@ -809,6 +809,7 @@ public:
     constexpr auto replace(const_iterator first, const_iterator last, basic_inplace_string const& str)
         -> basic_inplace_string&
     {
+        TETL_PRECONDITION(cbegin() <= first and first <= last and last <= cend());
         auto* f = to_mutable_iterator(first);
         auto* l = to_mutable_iterator(last);
         detail::str_replace(f, l, str.begin(), str.end());
@@ -843,6 +844,7 @@ public:
     constexpr auto replace(const_iterator first, const_iterator last, Char const* str, size_type count2)
         -> basic_inplace_string&
     {
+        TETL_PRECONDITION(cbegin() <= first and first <= last and last <= cend());
         auto* f = to_mutable_iterator(first);
         auto* l = to_mutable_iterator(last);
         detail::str_replace(f, l, str, next(str, count2));
@@ -861,6 +863,7 @@ public:
 
     constexpr auto replace(const_iterator first, const_iterator last, Char const* str) -> basic_inplace_string&
     {
+        TETL_PRECONDITION(cbegin() <= first and first <= last and last <= cend());
         auto* f = to_mutable_iterator(first);
         auto* l = to_mutable_iterator(last);
         detail::str_replace(f, l, str, next(str, strlen(str)));
@@ -882,6 +885,7 @@ public:
     constexpr auto replace(const_iterator first, const_iterator last, size_type count2, Char ch)
         -> basic_inplace_string&
     {
+        TETL_PRECONDITION(cbegin() <= first and first <= last and last <= cend());
         auto* f = to_mutable_iterator(first);
         auto* l = etl::min(to_mutable_iterator(last), f + count2);
         detail::str_replace(f, l, ch);
